@@ -123,7 +123,7 @@ public:
 FileManagement g_files;
 
 // ---- hook H4 --------------------------------------------------------------------------------
-struct VmRec { intptr_t offset; uintptr_t h; bool marked; };
+struct VmRec { intptr_t offset; uintptr_t h; bool marked; int op; };
 std::map<const ScriptVM*, VmRec> g_last;
 std::vector<std::string> g_ends;
 std::set<std::string> g_trans;
@@ -135,11 +135,11 @@ void probe(const ScriptVM* vm, intptr_t offset, uintptr_t h, size_t, bool marked
         // a thread that ends at statement level (OP_DONE, a command statement such as `end`, `remove`)
         // must leave an empty stack; one that is destroyed from outside while an expression of it is
         // in progress (`local.r = waitthread f` whose callee removes the caller's group) is marked k
+        // (the script instance of an ended VM may be gone already: only what earlier probes recorded is used)
         bool statementLevel = true;
         auto it = g_last.find(vm);
-        const ProgramScript* scr = vm->m_ScriptClass ? vm->m_ScriptClass->GetScript() : nullptr;
-        if (it != g_last.end() && scr && it->second.offset >= 0 && (size_t)it->second.offset < scr->GetProgLength()) {
-            const opval_t op = scr->GetProgBuffer()[it->second.offset];
+        if (it != g_last.end() && it->second.op >= 0) {
+            const int op = it->second.op;
             statementLevel = op == OP_DONE || (op >= OP_EXEC_CMD0 && op <= OP_EXEC_CMD_METHOD_COUNT1);
         }
         g_ends.push_back((statementLevel ? "" : "k") + std::to_string(h));
@@ -168,7 +168,7 @@ void probe(const ScriptVM* vm, intptr_t offset, uintptr_t h, size_t, bool marked
             g_trans.insert(buf);
         }
     }
-    g_last[vm] = VmRec{ offset, h, marked };
+    g_last[vm] = VmRec{ offset, h, marked, base ? (int)base[offset] : -1 };
 }
 
 std::string unhex(const std::string& h)
